@@ -6,6 +6,7 @@ import (
 	"time"
 
 	"verif/mc/explore"
+	"verif/mc/gen"
 	"verif/mc/ref/refgrammar"
 )
 
@@ -148,6 +149,48 @@ func valuesSub(c *explore.Ctx, side *gramSide, g *refgrammar.Grammar) {
 				s.Transitions++
 				gramCase(c, s, side, g, gramInput{Text: text}, nil, false)
 			}
+		}
+	}
+	s.WallS = time.Since(t0).Seconds()
+}
+
+// familiesAcceptSub: the size families (and a few floods of repeated constructs) up to a few
+// thousand tokens: acceptance and tree against the reference recogniser. The sweeps stop at a
+// dozen tokens; limits that depend on how often a construct is repeated in a document (counters
+// that are not released, fixed-size tables) only show on long documents.
+func familiesAcceptSub(c *explore.Ctx, side *gramSide, g *refgrammar.Grammar) {
+	maxTok := c.Pick(2048, 8192)
+	s := c.Sub("families-accept", fmt.Sprintf("the %d parse size families × n = 2^k while the document has ≤ %d tokens", len(gen.ParseFamilies), maxTok),
+		"parser accepts ⇔ the reference recogniser derives the token sequence; equal trees", "documents in the language")
+	if s == nil {
+		return
+	}
+	t0 := time.Now()
+	idx := 0
+	for fi := range gen.ParseFamilies {
+		f := &gen.ParseFamilies[fi]
+		for n := 1; n <= maxTok; n *= 2 {
+			text := f.Make(n)
+			if len(text) > 16*maxTok {
+				break
+			}
+			idx++
+			if idx%c.NShards != c.Shard {
+				continue
+			}
+			if c.Expired() {
+				s.Cap("deadline")
+				s.WallS = time.Since(t0).Seconds()
+				return
+			}
+			toks, ok := gramToks(text)
+			if !ok || len(toks) > maxTok {
+				s.Skipped++
+				continue
+			}
+			s.States++
+			s.Transitions++
+			gramCase(c, s, side, g, gramInput{Text: text, Base: fmt.Sprintf("family=%s n=%d", f.Name, n)}, nil, false)
 		}
 	}
 	s.WallS = time.Since(t0).Seconds()
